@@ -479,6 +479,16 @@ class CFG:
                 args_raise = False
             else:
                 args_raise = True
+            if cname is not None and not (self.h.known(cname) or cname[:1].isupper()) and self.model is not None and isinstance(x, ast.Call):
+                # `raise make_error(..)`: an error factory of the package -- the class of what it returns
+                try:
+                    from .rules._exc import raised_class
+
+                    rc_ = raised_class(self.model, self.fn, x)
+                except Exception:
+                    rc_ = None
+                if rc_ is not None and (self.h.known(rc_) or rc_[:1].isupper()):
+                    cname = rc_
             if cname is not None and (self.h.known(cname) or (cname[:1].isupper())):
                 kinds = [cname]
             elif cname is not None and ctx.reraise and self._is_handler_var(cname):
